@@ -1,9 +1,9 @@
 package props
 
 import (
-	"strings"
 	"fmt"
 	"math"
+	"strings"
 	"time"
 
 	sdkmath "cosmossdk.io/math"
